@@ -144,8 +144,87 @@ Fixpoint to_json (v : jv) : list N :=
                           end) l true ++ [125%N]
   end.
 
+(* ---- the formats (func.go funcToHTML, funcToURI, funcToCSV, funcToTSV, funcToSh, funcToBase64) on ASCII strings ---- *)
+Definition to_string (v : jv) : list N := match v with VStr s => s | _ => to_json v end.
+(* htmlEscaper: the five characters less-than, greater-than, ampersand, apostrophe, double quote *)
+Definition html_esc (s : list N) : list N :=
+  flat_map (fun c => if N.eqb c 60 then [38; 108; 116; 59]%N else if N.eqb c 62 then [38; 103; 116; 59]%N
+                     else if N.eqb c 38 then [38; 97; 109; 112; 59]%N else if N.eqb c 39 then [38; 97; 112; 111; 115; 59]%N
+                     else if N.eqb c 34 then [38; 113; 117; 111; 116; 59]%N else [c]) s.
+(* url.QueryEscape with the plus sign replaced by %20: everything but A-Z a-z 0-9 - _ . ~ is %XX (upper-case hex) *)
+Definition hexd (n : N) : N := if N.ltb n 10 then (48 + n)%N else (55 + n)%N.
+Definition uri_unreserved (c : N) : bool :=
+  (N.leb 48 c && N.leb c 57) || (N.leb 65 c && N.leb c 90) || (N.leb 97 c && N.leb c 122) ||
+  N.eqb c 45 || N.eqb c 95 || N.eqb c 46 || N.eqb c 126.
+Definition uri_esc (s : list N) : list N :=
+  flat_map (fun c => if uri_unreserved c then [c] else [37%N; hexd (N.div c 16); hexd (N.modulo c 16)]) s.
+(* csvEscaper / tsvEscaper / shEscaper *)
+Definition csv_esc (s : list N) : list N :=
+  34%N :: flat_map (fun c => if N.eqb c 34 then [34; 34]%N else if N.eqb c 0 then [92; 48]%N else [c]) s ++ [34%N].
+Definition tsv_esc (s : list N) : list N :=
+  flat_map (fun c => if N.eqb c 9 then [92; 116]%N else if N.eqb c 13 then [92; 114]%N else if N.eqb c 10 then [92; 110]%N
+                     else if N.eqb c 92 then [92; 92]%N else if N.eqb c 0 then [92; 48]%N else [c]) s.
+Definition sh_esc (s : list N) : list N :=
+  39%N :: flat_map (fun c => if N.eqb c 39 then [39; 92; 39; 39]%N else if N.eqb c 0 then [92; 48]%N else [c]) s ++ [39%N].
+(* formatJoin: the input must be an array of scalars; strings are escaped, other scalars are their JSON text, except
+   that null is the empty string (not for @sh) *)
+Fixpoint join_sep (sep : list N) (l : list (list N)) : list N :=
+  match l with [] => [] | [x] => x | x :: r => x ++ sep ++ join_sep sep r end.
+Definition format_join (sh : bool) (sep : list N) (esc : list N -> list N) (v : jv) : jv + err0 :=
+  match v with
+  | VArr l =>
+      match (fix go (l : list jv) : option (list (list N)) :=
+               match l with
+               | [] => Some []
+               | x :: r =>
+                   match (match x with
+                          | VArr _ | VObj _ => None
+                          | VStr s => Some (esc s)
+                          | VNull => Some (if sh then to_json VNull else [])
+                          | _ => Some (to_json x)
+                          end), go r with
+                   | Some a, Some b => Some (a :: b)
+                   | _, _ => None
+                   end
+               end) l with
+      | Some ss => inl (VStr (join_sep sep ss))
+      | None => inr (EMsg [])
+      end
+  | _ => inr (EMsg [])
+  end.
+(* base64.StdEncoding *)
+Definition b64c (n : N) : N :=
+  if N.ltb n 26 then (65 + n)%N else if N.ltb n 52 then (97 + (n - 26))%N else if N.ltb n 62 then (48 + (n - 52))%N
+  else if N.eqb n 62 then 43%N else 47%N.
+Fixpoint b64 (l : list N) : list N :=
+  match l with
+  | a :: b :: c :: r =>
+      [b64c (N.div a 4); b64c (N.modulo a 4 * 16 + N.div b 16); b64c (N.modulo b 16 * 4 + N.div c 64); b64c (N.modulo c 64)] ++ b64 r
+  | [a; b] => [b64c (N.div a 4); b64c (N.modulo a 4 * 16 + N.div b 16); b64c (N.modulo b 16 * 4); 61%N]
+  | [a] => [b64c (N.div a 4); b64c (N.modulo a 4 * 16); 61%N; 61%N]
+  | [] => []
+  end.
+Definition type_name (v : jv) : list N :=
+  match v with
+  | VNull => [110; 117; 108; 108]%N | VBool _ => [98; 111; 111; 108; 101; 97; 110]%N | VNum _ => [110; 117; 109; 98; 101; 114]%N
+  | VStr _ => [115; 116; 114; 105; 110; 103]%N | VArr _ => [97; 114; 114; 97; 121]%N | VObj _ => [111; 98; 106; 101; 99; 116]%N
+  end.
+
 Definition c_fn0 (f : fn0) (v : jv) : jv + err0 :=
   match f with
+  | F0ToHtml => inl (VStr (html_esc (to_string v)))
+  | F0ToUri => inl (VStr (uri_esc (to_string v)))
+  | F0ToCsv => format_join false [44%N] csv_esc v
+  | F0ToTsv => format_join false [9%N] tsv_esc v
+  | F0ToSh => format_join true [32%N] sh_esc (match v with VArr _ => v | _ => VArr [v] end)
+  | F0ToBase64 => inl (VStr (b64 (to_string v)))
+  | F0Keys =>          (* funcKeys: the indices of an array, the sorted keys of an object *)
+      match v with
+      | VArr l => inl (VArr (map (fun i => VNum (Z.of_nat i)) (seq 0 (length l))))
+      | VObj l => inl (VArr (map (fun kv => VStr (fst kv)) l))
+      | _ => inr (EMsg [])
+      end
+  | F0Type => inl (VStr (type_name v))
   | F0Error => inr (EVal v)
   | F0ToString => match v with VStr _ => inl v | _ => inl (VStr (to_json v)) end
   | F0ToJson => inl (VStr (to_json v))
@@ -188,4 +267,6 @@ Definition c_fn2 (o : binop) (x l r : jv) : jv + err0 :=
   | OGe => inl (VBool (match jcmp l r with Lt => false | _ => true end))
   end.
 
-Definition cnat : natives := {| n_index := c_index; n_iter := c_iter; n_fn0 := c_fn0; n_fn2 := c_fn2; n_slice := c_slice |}.
+(* error(a): funcError(v, [a]) raises a with whatever input (exitCodeError{a, 5}: a ValueError with payload a) *)
+Definition c_fn1 (f : fn1) (x a : jv) : jv + err0 := match f with F1Error => inr (EVal a) end.
+Definition cnat : natives := {| n_index := c_index; n_iter := c_iter; n_fn0 := c_fn0; n_fn2 := c_fn2; n_slice := c_slice; n_fn1 := c_fn1 |}.
